@@ -9,7 +9,7 @@ import ast
 from fractions import Fraction
 
 from ..common import AnalysisError, norm_src, unparse
-from ..exact import Aff, aff_eval, const_value
+from ..exact import Aff
 
 LEVEL = "proof"
 FD = "finitedifference.py"
@@ -18,94 +18,44 @@ ROLES = ("backward", "centered", "forward")
 
 
 # ---------------------------------------------------------------------------------------------
-# linear forms over stencil offsets
+# the module is partially evaluated (aurelsa.fdpe): helpers, tables, generators, dispatch loops
+# are executed; what depends on the field, the grid size or the parameter table stays a term
 # ---------------------------------------------------------------------------------------------
-class Lin:
-    """sum_k w_k f[i+k] * inverse_dx**dxpow  (or a pure constant when w is empty)"""
+from ..fdpe import FDPE, Lin, Sym, SymbolicBranch, to_term  # noqa: E402
+from ..tensor import NeedConfig, PathEnds, Unsupported, _Closure  # noqa: E402
 
-    def __init__(self, w=None, c=0, dxpow=0):
-        self.w = {k: Fraction(v) for k, v in (w or {}).items() if v != 0}
-        self.c = Fraction(c)
-        self.dxpow = dxpow
-
-    def is_const(self):
-        return not self.w and self.dxpow == 0
+ROLE_ATTRS = {r: Sym(("role", r)) for r in ROLES}
 
 
-def lin_eval(node, fname, iname, dxname):
-    v = const_value(node)
-    if v is not None:
-        return Lin(c=v)
-    if isinstance(node, ast.Name) and node.id == dxname:
-        return Lin(c=1, dxpow=1)
-    if isinstance(node, ast.Subscript) and isinstance(node.value, ast.Name) \
-            and node.value.id == fname:
-        off = aff_eval(node.slice, {iname: Aff.sym("i")})
-        if off is None or off.t.get("i", 0) != 1 or set(off.t) - {"i"} \
-                or off.c.denominator != 1:
-            raise AnalysisError(f"stencil subscript not of the form i+k: {unparse(node)}")
-        return Lin(w={int(off.c): 1})
-    if isinstance(node, ast.UnaryOp) and isinstance(node.op, (ast.USub, ast.UAdd)):
-        a = lin_eval(node.operand, fname, iname, dxname)
-        s = -1 if isinstance(node.op, ast.USub) else 1
-        return Lin({k: s * v for k, v in a.w.items()}, s * a.c, a.dxpow)
-    if isinstance(node, ast.BinOp):
-        a = lin_eval(node.left, fname, iname, dxname)
-        b = lin_eval(node.right, fname, iname, dxname)
-        if isinstance(node.op, (ast.Add, ast.Sub)):
-            s = 1 if isinstance(node.op, ast.Add) else -1
-            if a.dxpow != b.dxpow and not (a.is_const() and a.c == 0) \
-                    and not (b.is_const() and b.c == 0):
-                raise AnalysisError(f"stencil mixes powers of the spacing: {unparse(node)}")
-            if (a.c != 0 and not a.is_const()) or (b.c != 0 and not b.is_const()):
-                raise AnalysisError("stencil has an affine constant part")
-            w = dict(a.w)
-            for k, v in b.w.items():
-                w[k] = w.get(k, 0) + s * v
-            return Lin(w, a.c + s * b.c, max(a.dxpow, b.dxpow))
-        if isinstance(node.op, ast.Mult):
-            if a.w and b.w:
-                raise AnalysisError(f"stencil is not linear in f: {unparse(node)}")
-            if a.w:
-                a, b = b, a
-            # a has no f-dependence: scalar a.c * dx^a.dxpow
-            if b.w:
-                return Lin({k: a.c * v for k, v in b.w.items()}, 0, a.dxpow + b.dxpow)
-            return Lin(c=a.c * b.c, dxpow=a.dxpow + b.dxpow)
-        if isinstance(node.op, ast.Div):
-            if b.w or b.c == 0:
-                raise AnalysisError(f"stencil divides by a field: {unparse(node)}")
-            return Lin({k: v / b.c for k, v in a.w.items()}, a.c / b.c, a.dxpow - b.dxpow)
-    raise AnalysisError(f"stencil expression not understood: {unparse(node)}")
+def pe_run(rep, qual, args, attrs=None, config=None, **kw):
+    """Partially evaluate `qual`; symbolic branches and open questions are reported to the
+    caller, anything else that cannot be evaluated is an analysis error."""
+    it = FDPE(rep.sources, config=config, attrs=attrs, **kw)
+    try:
+        return it, it.run(qual, args)
+    except (SymbolicBranch, NeedConfig):
+        raise
+    except PathEnds as e:
+        raise AnalysisError(f"{qual}: every evaluated path raises: {e}")
+    except Unsupported as e:
+        raise AnalysisError(f"{qual}: cannot be evaluated: {e}")
 
 
-def extract_stencil(fn):
+def extract_stencil(rep, fn):
     args = [a.arg for a in fn.args.args]
     if len(args) != 3:
         raise AnalysisError(f"{fn.name}: expected (f, i, inverse_dx)")
-    body = [s for s in fn.body if not (isinstance(s, ast.Expr)
-                                       and isinstance(s.value, ast.Constant))]
-    env_assign = {}
-    ret = None
-    for s in body:
-        if isinstance(s, ast.Return):
-            ret = s.value
-        elif isinstance(s, ast.Assign) and len(s.targets) == 1 \
-                and isinstance(s.targets[0], ast.Name):
-            env_assign[s.targets[0].id] = s.value
-        else:
-            raise AnalysisError(f"{fn.name}: unexpected statement {norm_src(s)}")
-    if ret is None:
-        raise AnalysisError(f"{fn.name}: no return")
-
-    class Inl(ast.NodeTransformer):
-        def visit_Name(self, n):
-            if n.id in env_assign and isinstance(n.ctx, ast.Load):
-                return self.visit(env_assign[n.id])
-            return n
-    import copy
-    ret = Inl().visit(copy.deepcopy(ret))
-    return lin_eval(ret, *args)
+    it = FDPE(rep.sources, stencil_field=args[0])
+    it.dx_param = args[2]
+    try:
+        v = it.run(fn.name, [Sym(("param", args[0])), Aff.sym("i"), Sym(("param", args[2]))])
+    except SymbolicBranch as e:
+        raise AnalysisError(f"{fn.name}: {e}")
+    except (Unsupported, PathEnds, NeedConfig) as e:
+        raise AnalysisError(f"{fn.name}: cannot be evaluated: {e}")
+    if not isinstance(v, Lin):
+        raise AnalysisError(f"{fn.name}: the result is not a linear form of the samples")
+    return v
 
 
 def expected_offsets(p, role):
@@ -126,7 +76,7 @@ def check_stencils(rep):
             if name not in fns:
                 raise AnalysisError(f"anchor vanished: {FD}::{name}")
             fn = fns[name]
-            lin = extract_stencil(fn)
+            lin = extract_stencil(rep, fn)
             stencils[(p, role)] = lin
             key = f"{FD}::{name}"
             rep.check(lin.dxpow == 1 and lin.c == 0, "stencil-scaling", key,
@@ -162,111 +112,105 @@ def check_stencils(rep):
 
 
 # ---------------------------------------------------------------------------------------------
-# dispatch in FiniteDifference.__init__
+# dispatch in FiniteDifference.__init__: the constructor is evaluated for every order
 # ---------------------------------------------------------------------------------------------
-def is_self_attr(node, name=None):
-    return isinstance(node, ast.Attribute) and isinstance(node.value, ast.Name) \
-        and node.value.id == "self" and (name is None or node.attr == name)
+UNSUPPORTED_ORDERS = (3, 10, 0)
+
+
+def init_state(rep, order, boundary="no boundary"):
+    fn = rep.sources.function(FD, "FiniteDifference.__init__")
+    names = [a.arg for a in fn.args.args][1:]
+    rep.require("fd_order" in names and names and names[0] == "param",
+                "FiniteDifference.__init__: (param, ..., fd_order, ...) expected")
+    it = FDPE(rep.sources)
+    kwargs = {"fd_order": order}
+    for n in names:
+        if n in ("verbose", "veryverbose"):
+            kwargs[n] = False
+        elif n == "boundary":
+            kwargs[n] = boundary
+    try:
+        it.call_function(fn, [Sym(("param", "param"))], kwargs, "__init__", True, rel=FD)
+    except SymbolicBranch as e:
+        raise AnalysisError(f"FiniteDifference.__init__: {e}")
+    except (Unsupported, PathEnds, NeedConfig) as e:
+        raise AnalysisError(f"FiniteDifference.__init__: cannot be evaluated: {e}")
+    return fn, it.attrs
 
 
 def check_dispatch(rep, stencils):
-    S = rep.sources
-    init = S.function(FD, "FiniteDifference.__init__")
-    chain = None
-    for st in init.body:
-        if isinstance(st, ast.If) and "fd_order" in unparse(st.test):
-            chain = st
-    if chain is None:
-        raise AnalysisError("dispatch on fd_order not found in FiniteDifference.__init__")
-    branches = []  # (order or None, body)
-    node = chain
-    while True:
-        t = node.test
-        order = None
-        if isinstance(t, ast.Compare) and len(t.ops) == 1 and isinstance(t.ops[0], ast.Eq) \
-                and is_self_attr(t.left, "fd_order"):
-            order = const_value(t.comparators[0])
-        if order is None:
-            raise AnalysisError(f"dispatch test not understood: {unparse(t)}")
-        branches.append((int(order), node.body))
-        if len(node.orelse) == 1 and isinstance(node.orelse[0], ast.If):
-            node = node.orelse[0]
-        else:
-            branches.append((None, node.orelse))
-            break
-    seen_orders = set()
-    mask_stmt = None
-    for st in init.body:
-        if isinstance(st, ast.Assign) and any(is_self_attr(t, "mask_len") for t in st.targets):
-            mask_stmt = st
-    if mask_stmt is None:
-        raise AnalysisError("self.mask_len assignment not found")
-    rep.check(init.body.index(mask_stmt) > init.body.index(chain), "dispatch-mask-order",
-              f"{FD}::FiniteDifference.__init__::mask_len-after-dispatch",
-              "mask_len is computed before fd_order has been normalised", node=mask_stmt)
-    for order, body in branches:
-        assigned = {}
-        norm = None
-        for st in body:
-            if isinstance(st, ast.Assign) and len(st.targets) == 1 \
-                    and is_self_attr(st.targets[0]):
-                tgt = st.targets[0].attr
-                if tgt in ROLES and isinstance(st.value, ast.Name):
-                    assigned[tgt] = st.value.id
-                elif tgt == "fd_order":
-                    norm = const_value(st.value)
-        eff = order if order is not None else (int(norm) if norm is not None else None)
-        key = f"{FD}::FiniteDifference.__init__::branch(fd_order=={order})"
-        if order is None:
-            rep.check(norm is not None and int(norm) in ORDERS, "dispatch-default", key,
-                      "the fall-through branch must normalise self.fd_order to a supported "
-                      "order before mask_len is computed", node=chain)
-            if eff is None:
+    seen = set()
+    for order in ORDERS + UNSUPPORTED_ORDERS:
+        fn, attrs = init_state(rep, order)
+        supported = order in ORDERS
+        lab = order if supported else None
+        key = f"{FD}::FiniteDifference.__init__::branch(fd_order=={lab})"
+        eff = attrs.get("fd_order")
+        if not supported:
+            ok = isinstance(eff, int) and eff in ORDERS
+            rep.check(ok, "dispatch-default", f"{key}::fd_order={order}",
+                      f"for the unsupported order {order} the constructor must normalise "
+                      f"self.fd_order to a supported order, it is {eff!r}", node=fn)
+            if not ok:
                 continue
-        seen_orders.add(eff)
+        else:
+            rep.check(eff == order, "dispatch-order", key,
+                      f"self.fd_order is {eff!r} after constructing with fd_order={order}",
+                      node=fn)
+            eff = order
+            seen.add(order)
+        got = {}
         for role in ROLES:
-            rep.check(assigned.get(role) == f"fd{eff}_{role}", "dispatch-table",
-                      f"{key}::{role}",
-                      f"self.{role} = {assigned.get(role)} but order {eff} requires "
-                      f"fd{eff}_{role}", node=chain)
-        # mask_len for this order
-        m = const_value(mask_stmt.value, {}) if False else None
-        sub = _subst_attr(mask_stmt.value, "fd_order", eff)
-        m = const_value(sub)
+            v = attrs.get(role)
+            got[role] = v.name if isinstance(v, _Closure) else repr(v)
+            rep.check(got[role] == f"fd{eff}_{role}", "dispatch-table",
+                      f"{key}::{role}" + ("" if supported else f"::fd_order={order}"),
+                      f"self.{role} = {got[role]} but order {eff} requires fd{eff}_{role}",
+                      node=fn)
+        m = attrs.get("mask_len")
         cen = stencils[(eff, "centered")]
         half = max(abs(k) for k in cen.w)
-        rep.check(m is not None and m == half, "dispatch-mask", f"{key}::mask_len",
-                  f"mask_len evaluates to {m} for fd_order={eff}, the centred stencil "
-                  f"reaches {half} points", node=mask_stmt, detail={"mask_len": str(m)})
-    rep.check(seen_orders >= set(ORDERS), "dispatch-complete",
+        rep.check(isinstance(m, int) and m == half, "dispatch-mask",
+                  f"{key}::mask_len" + ("" if supported else f"::fd_order={order}"),
+                  f"mask_len is {m!r} for fd_order={order} (normalised to {eff}), the centred "
+                  f"stencil reaches {half} points", node=fn, detail={"mask_len": str(m)})
+    rep.check(seen >= set(ORDERS), "dispatch-complete",
               f"{FD}::FiniteDifference.__init__::orders",
-              f"orders dispatched {sorted(seen_orders)} do not cover {ORDERS}", node=chain)
-
-
-def _subst_attr(expr, attr, value):
-    import copy
-
-    class T(ast.NodeTransformer):
-        def visit_Attribute(self, n):
-            if is_self_attr(n, attr):
-                return ast.Constant(value)
-            return self.generic_visit(n)
-    return T().visit(copy.deepcopy(expr))
+              f"orders dispatched {sorted(seen)} do not cover {ORDERS}")
 
 
 # ---------------------------------------------------------------------------------------------
 # splices, axes and tensor maps: decided on the terms of the symbolic interpreter (fdinterp),
 # so temporaries, aliases, renamings, loops vs comprehensions do not matter
 # ---------------------------------------------------------------------------------------------
-from ..fdinterp import FDInterp, NotUnderstood, canon_lists, segments  # noqa: E402
+from ..fdinterp import canon_lists, segments  # noqa: E402
 
 AXIS = {"x": 0, "y": 1, "z": 2}
 Nsym = Aff.sym("N")
 
 
-def interp(rep, qual, m=None, args=None):
+def interp(rep, qual, m=None, args=None, config=None):
+    """Term computed by `qual` on symbolic arguments (mask_len = m when given)."""
     fn = rep.sources.function(FD, qual)
-    return fn, FDInterp(m, what=qual).run(fn, args)
+    params = [a.arg for a in fn.args.args]
+    if "." in qual:
+        params = params[1:]
+    attrs = dict(ROLE_ATTRS, verbose=False, veryverbose=False)
+    if m is not None:
+        attrs["mask_len"] = m
+    if args is None:
+        args = [Sym(("param", x)) for x in params]
+    else:
+        args = [a if isinstance(a, (Sym, Aff)) else Sym(a) for a in args]
+    try:
+        it, v = pe_run(rep, qual, args, attrs=attrs, config=config)
+    except SymbolicBranch as e:
+        raise AnalysisError(f"{qual}: {e}")
+    except NeedConfig as q:
+        raise AnalysisError(f"{qual}: depends on self.{q.q}")
+    if v is None:
+        raise AnalysisError(f"{qual}: function does not return a value")
+    return fn, to_term(v)
 
 
 def fd_map_shape(rep):
@@ -315,7 +259,7 @@ def check_splices(rep, stencils):
     for p in ORDERS:
         m = p // 2
         key = f"{FD}::d3_onesided::order{p}"
-        v = FDInterp(m, "d3_onesided").run(fn, [F, IDX, Nsym])
+        v = interp(rep, "FiniteDifference.d3_onesided", m, [F, IDX, Nsym])[1]
         pieces_v = v[1] if v[0] == "cat" else None
         ok = pieces_v is not None and v[2] == Aff(0) and len(pieces_v) == 3 \
             and all(x[0] == "fd_map" and len(x[1]) == 5 for x in pieces_v)
@@ -374,7 +318,7 @@ def check_splices(rep, stencils):
         for p in ORDERS:
             m = p // 2
             key = f"{FD}::d3_{mode}::order{p}"
-            v = FDInterp(m, f"d3_{mode}").run(fn, [F, IDX, Nsym])
+            v = interp(rep, f"FiniteDifference.d3_{mode}", m, [F, IDX, Nsym])[1]
             rep.require(v[0] == "fd_map" and len(v[1]) == 5,
                         f"d3_{mode}: the result is not one fd_map over an extended array")
             role, arr, idx, lo, hi = v[1]
@@ -399,32 +343,28 @@ def check_splices(rep, stencils):
             w = stencils[(p, "centered")].w
             rep.check(max(abs(k) for k in w) <= m, f"{mode}-reach", key,
                       "centred stencil reaches beyond the m ghost points", node=fn)
-    # ---- d3 dispatch on boundary
+    # ---- d3 dispatch on boundary: evaluated for every mode
     fn = S.function(FD, "FiniteDifference.d3")
     params = [a.arg for a in fn.args.args][1:]
-    v = FDInterp(None, "d3").run(fn)
-    table = {}
     P = tuple(("param", x) for x in params)
-    node = v
-    while node[0] == "cond":
-        t = node[1]
-        lab = "?"
-        if t[0] == "cmp" and t[1] == "Eq" and ("attr", "self.boundary") in (t[2], t[3]):
-            other = t[3] if t[2] == ("attr", "self.boundary") else t[2]
-            if other[0] == "const":
-                lab = other[1]
-        table[lab] = node[2]
-        node = node[3]
-    table[None] = node
     want = {"periodic": "d3_periodic", "symmetric": "d3_symmetric", None: "d3_onesided"}
     for lab, name in want.items():
-        got = table.get(lab)
-        rep.check(got == ("mcall", name, P), "boundary-dispatch", f"{FD}::d3::{lab}",
-                  f"boundary mode {lab!r} must call self.{name}(f, idx, N); got {got}", node=fn)
-    extra = set(table) - set(want)
-    rep.check(not extra, "boundary-dispatch", f"{FD}::d3::other-branches",
-              f"d3 has branches beyond the boundary dispatch: {sorted(map(str, extra))}",
-              node=fn)
+        for mode in ([lab] if lab else ["no boundary", "some other text"]):
+            got = None
+            why = ""
+            try:
+                it, v = pe_run(rep, "FiniteDifference.d3", [Sym(x) for x in P],
+                               attrs=dict(ROLE_ATTRS, verbose=False),
+                               config={"boundary": mode})
+                got = to_term(v) if v is not None else None
+            except SymbolicBranch as e:
+                why = f" ({e})"
+            except NeedConfig as q:
+                why = f" (the choice also depends on self.{q.q})"
+            rep.check(got == ("mcall", name, P), "boundary-dispatch",
+                      f"{FD}::d3::{lab}" + ("" if lab or mode == "no boundary" else "::other"),
+                      f"boundary mode {mode!r} must call self.{name}(f, idx, N); got "
+                      f"{got}{why}", node=fn)
 
 
 # ---------------------------------------------------------------------------------------------
@@ -439,27 +379,16 @@ def perm_of(v):
 
 def check_axes(rep):
     S = rep.sources
-    init = S.function(FD, "FiniteDifference.__init__")
-    # inverse spacing definitions
+    # inverse spacing definitions, read off the evaluated constructor
+    init, attrs = init_state(rep, 4)
     for ax in "xyz":
-        found = False
-        for st in ast.walk(init):
-            if isinstance(st, ast.Assign) and any(is_self_attr(t, f"inverse_d{ax}")
-                                                  for t in st.targets):
-                found = True
-                v = st.value
-                right = unparse(v.right) if isinstance(v, ast.BinOp) else ""
-                if isinstance(v, ast.BinOp) and isinstance(v.right, ast.Name):
-                    # alias of the parameter table entry
-                    for a2 in ast.walk(init):
-                        if isinstance(a2, ast.Assign) and unparse(a2.targets[0]) == right:
-                            right = unparse(a2.value)
-                ok = (isinstance(v, ast.BinOp) and isinstance(v.op, ast.Div)
-                      and const_value(v.left) == 1
-                      and right in (f"self.param['d{ax}']", f"self.d{ax}"))
-                rep.check(ok, "axis-spacing", f"{FD}::__init__::inverse_d{ax}",
-                          f"inverse_d{ax} must be 1/d{ax}, got {unparse(v)}", node=st)
-        rep.require(found, f"inverse_d{ax} assignment not found")
+        v = attrs.get(f"inverse_d{ax}")
+        rep.require(v is not None, f"inverse_d{ax} assignment not found")
+        t = to_term(v)
+        entry = ("idx", ("param", "param"), (("const", f"d{ax}"),))
+        rep.check(t == ("binop", "Div", Aff(1), entry), "axis-spacing",
+                  f"{FD}::__init__::inverse_d{ax}",
+                  f"inverse_d{ax} must be 1/param['d{ax}'], got {t!r}"[:200], node=init)
     for ax in "xyz":
         fn, v = interp(rep, f"FiniteDifference.d3{ax}")
         F = ("param", fn.args.args[1].arg)
@@ -559,21 +488,27 @@ STRAIGHT = ["fd_map", "map1", "map2", "map3", "FiniteDifference.d3x", "FiniteDif
 
 
 def check_straight_line(rep):
-    """The operators above must be branch-free: no data- or mode-dependent shortcut may bypass
-    the stencil application that the other rules verify (a branch returning early would make
-    the verified path one of several).  Accumulation loops are the only control flow."""
+    """The operators above must be branch-free on their data: no field-, size- or mode-dependent
+    shortcut may bypass the stencil application that the other rules verify.  Decided by
+    evaluation: every test met while the operator is evaluated on symbolic arguments must be
+    decidable from constants of the module (tables, literal names); a test on an argument, on
+    the grid size or on an instance attribute is a violation."""
     S = rep.sources
     for qual in STRAIGHT:
         fn = S.function(FD, qual)
-        bad = []
-        for node in ast.walk(fn):
-            if isinstance(node, (ast.If, ast.IfExp, ast.While, ast.Try, ast.Match,
-                                 ast.BoolOp)):
-                bad.append(type(node).__name__ + ": " + norm_src(node)[:50])
-        nret = sum(isinstance(n, ast.Return) for n in ast.walk(fn))
-        rep.check(not bad and nret == 1, "straight-line", f"{FD}::{qual}",
-                  "operator is not branch-free code (single return, no branches): "
-                  + "; ".join(bad), node=fn)
+        params = [a.arg for a in fn.args.args]
+        if "." in qual:
+            params = params[1:]
+        why = ""
+        try:
+            pe_run(rep, qual, [Sym(("param", x)) for x in params],
+                   attrs=dict(ROLE_ATTRS, mask_len=Aff.sym("m")))
+        except SymbolicBranch as e:
+            why = str(e)
+        except NeedConfig as q:
+            why = f"the path taken depends on self.{q.q}"
+        rep.check(not why, "straight-line", f"{FD}::{qual}",
+                  "operator is not branch-free on its data: " + why, node=fn)
 
 
 def run(rep):
